@@ -258,7 +258,13 @@ func (c *Conn) CallRPC(in *In) *Out {
 		}
 	case "setattr":
 		var res r3.SETATTR3res
-		if do(r3.NFSPROC3_SETATTR, &r3.SETATTR3args{Object: rfh(in.Obj), New_attributes: rsattr(in)}, &res) {
+		args := &r3.SETATTR3args{Object: rfh(in.Obj), New_attributes: rsattr(in)}
+		if in.How == 1 {
+			args.Guard = r3.Sattrguard3{Check: true, Obj_ctime: r3.Nfstime3{Seconds: 77, Nseconds: 5}}
+		} else if in.How == 2 {
+			args.Guard = r3.Sattrguard3{Check: true}
+		}
+		if do(r3.NFSPROC3_SETATTR, args, &res) {
 			out.Status = uint32(res.Status)
 			if res.Status == 0 {
 				out.Attr = rpost(res.Resok.Obj_wcc.After)
